@@ -73,9 +73,21 @@ class Result:
         self.cmd = ''
 
 
+ACTIVE = set()
+LAST_RSS_KB = {}
+
+
+def kill_active(*_a):
+    for p in list(ACTIVE):
+        try:
+            p.terminate()
+        except Exception:
+            pass
+
+
 def sh(cmd, cwd=None, timeout=None, mem_gb=None, out=None, err=None):
+    """run a child (no shell); returns (rc, text, wall). rc -9 on timeout. Peak RSS in LAST_RSS_KB[pid]."""
     def lim():
-        os.setsid()
         if mem_gb:
             b = int(mem_gb * (1 << 30))
             resource.setrlimit(resource.RLIMIT_AS, (b, b))
@@ -83,17 +95,21 @@ def sh(cmd, cwd=None, timeout=None, mem_gb=None, out=None, err=None):
     fo = open(out, 'wb') if out else subprocess.PIPE
     fe = open(err, 'wb') if err else subprocess.STDOUT
     p = subprocess.Popen(cmd, cwd=cwd, stdout=fo, stderr=fe, preexec_fn=lim)
+    ACTIVE.add(p)
     try:
-        o, _ = p.communicate(timeout=timeout)
-        rc = p.returncode
-    except subprocess.TimeoutExpired:
         try:
-            os.killpg(p.pid, signal.SIGKILL)
-        except Exception:
-            pass
-        o, _ = p.communicate()
-        rc = -9
-    ru = resource.getrusage(resource.RUSAGE_CHILDREN)
+            o, _ = p.communicate(timeout=timeout)
+            rc = p.returncode
+        except subprocess.TimeoutExpired:
+            p.terminate()
+            try:
+                o, _ = p.communicate(timeout=5)
+            except subprocess.TimeoutExpired:
+                p.kill()
+                o, _ = p.communicate()
+            rc = -9
+    finally:
+        ACTIVE.discard(p)
     if out:
         fo.close()
     if err:
@@ -233,12 +249,12 @@ def run_cbmc(q, gb, wd):
     cmd = cbmc_cmd(q, gb)
     r.cmd = ' '.join(cmd).replace(wd, '$WD')
     outp = os.path.join(wd, 'cbmc.json')
-    timef = os.path.join(wd, 'time.txt')
-    rc, _, wall = sh(['/usr/bin/time', '-f', '%M', '-o', timef] + cmd, timeout=q.timeout,
+    rc, _, wall = sh(['/usr/bin/env', 'VF_RSS_FILE=' + os.path.join(wd, 'rss.txt'), sys.executable,
+                      os.path.join(VERIF, 'vflib', 'rsswrap.py')] + cmd, timeout=q.timeout,
                      mem_gb=q.mem_gb, out=outp, err=os.path.join(wd, 'cbmc.err'))
     r.wall = wall
     try:
-        r.rss_mb = int(open(timef).read().strip().splitlines()[-1]) // 1024
+        r.rss_mb = int(open(os.path.join(wd, 'rss.txt')).read().strip()) // 1024
     except Exception:
         pass
     if rc == -9:
@@ -480,8 +496,9 @@ def execute(q, prop_id, workroot, replay_dir):
 def run_queries(prop_id, queries, tier, jobs=None):
     pid = os.getpid()
     workroot = os.path.join(VERIF, '.work', '%s-%d' % (prop_id, pid))
+    replay_sub = 'replays' if REPO == '/repo' else 'replays/mutants'
     os.makedirs(workroot, exist_ok=True)
-    replay_dir = os.path.join(VERIF, 'replays')
+    replay_dir = os.path.join(VERIF, replay_sub)
     jobs = jobs or int(os.environ.get('VF_JOBS', '0')) or min(16, os.cpu_count() or 4)
     results = []
     try:
